@@ -1,7 +1,7 @@
 (* C19: checkers for the correspondence run. *)
 From Coq Require Import List String Bool.
 Import ListNotations.
-From Pedal Require Import model.C19_Types gen.C19_Gen.
+From Pedal Require Import model.C19_Types gen.C19_Gen model.C19_Compare.
 Open Scope string_scope.
 
 Definition ptype_eqb (a b : ptype) : bool :=
@@ -21,3 +21,13 @@ Definition check_spec (c : string * core * core * bool * list core) : bool :=
 (* real TIFA: (op, a, b, inferred type or PImpossible) *)
 Definition check_tifa_cell (c : string * core * core * ptype) : bool :=
   let '(op, a, b, t) := c in ptype_eqb (tifa_binop gen_binop_table op a b) t.
+
+(* comparisons.  live CPython: (op, a, b, TypeError on every sample pair?) *)
+Definition check_cmp_spec (c : string * core * core * bool) : bool :=
+  let '(op, a, b, raises) := c in Bool.eqb (cpy_cmp_raises op a b) raises.
+
+(* real TIFA: (op, a, b, reported?) - whichever pedal class the operands were typed with, the model must say the same
+   (cells the model leaves open - membership in a list / tuple - pass) *)
+Definition check_tifa_cmp (c : string * core * core * bool) : bool :=
+  let '(op, a, b, reported) := c in
+  forallb (fun l => forallb (fun r => match tifa_cmp op l r with Some x => Bool.eqb x reported | None => true end) (reps b)) (reps a).
